@@ -231,9 +231,36 @@ INVALID_NAMES = ["AA {BB", "AA BB}", "AA, BB, CC, DD", "AA,", "AA, ", "{AA} bb}"
 VALID_NAMES = ["AA bb CC", "bb CC, AA", "Knuth, Jr, Donald"]
 
 
+def check_key_twice(acc):
+    """A name field key held twice by an entry (built by a program; the inner entry of a duplicate-field block): every
+    occurrence is split on its own, in its own place, and the other fields stay where they are."""
+    groups = [["AA bb CC", "bb CC, AA"], ["Knuth, Donald E."], ["{cc} dd EE", "AA BB, Jr, CC"], ["de la Vall{\\'e}e Poussin, Charles"]]
+    for g1 in groups:
+        for g2 in groups:
+            if g1 is g2:
+                continue
+            for inplace in (True, False):
+                fields = [Field("author", list(g1), 1), Field("title", "T", 2), Field("author", list(g2), 3), Field("editor", list(g1), 4), Field("editor", list(g2), 5)]
+                e = Entry("article", "k", fields, start_line=0, raw="@article{k, ...}")
+                case = {"name_key_twice": [g1, g2], "inplace": inplace}
+                acc.trace()
+                acc.case(nontrivial_key=("twice", tuple(g1), tuple(g2), inplace))
+                try:
+                    out = SplitNameParts(allow_inplace_modification=inplace).transform(Library([e])).blocks[0]
+                    got = [(f.key, [as_dict(p) for p in f.value] if isinstance(f.value, list) and f.value and not isinstance(f.value[0], str) else f.value, f.start_line) for f in out.fields]
+                    want = lambda g: [as_dict(parse_single_name_into_parts(n)) for n in g]
+                    exp = [("author", want(g1), 1), ("title", "T", 2), ("author", want(g2), 3), ("editor", want(g1), 4), ("editor", want(g2), 5)]
+                except Exception as ex:
+                    acc.exception(ex, case, "SplitNameParts on an entry holding a name key twice")
+                    continue
+                if got != exp:
+                    acc.violation({"oracle": "every_occurrence_of_a_name_field_is_split_in_place"}, {"case": case, "observed": repr(got)[:400], "expected": repr(exp)[:400]})
+
+
 def check_middleware(which, acc):
     """Invalid name -> MiddlewareErrorBlock retaining the entry; never another exception."""
     if which == 0:
+        check_key_twice(acc)
         for bad in INVALID_NAMES:
             for pos in range(3):
                 for inplace in (True, False):
@@ -413,6 +440,8 @@ def finish(acc, tier):
 def replay(case, acc):
     if "leak" in case:
         return run_shard(("leak", 0), "quick", acc)
+    if "name_key_twice" in case:
+        return check_key_twice(acc)
     if "name" in case:
         check_name(case["name"], acc, None, case)
     elif "middleware" in case:
